@@ -31,9 +31,15 @@ def _classify(evaluate, perr, e):
 
 def _replay_chunk(vecs):
     from emmet.math_expression import evaluate, MathExpressionException
+    from emmet.math_expression.parser import parse
     bad = []
     for v in vecs:
         k, val, info = _classify(evaluate, MathExpressionException, v['e'])
+        # what parse() hands out belongs to the caller: a token list that was changed in place does not touch later evaluations
+        try:
+            common.scramble(parse(v['e']))
+        except Exception:
+            pass
         # the value of an expression does not depend on earlier evaluations: the same string once more, right away
         k2, val2, info2 = _classify(evaluate, MathExpressionException, v['e'])
         if (k2, val2) != (k, val):
